@@ -32,8 +32,9 @@ func runC19(c *fw.Ctx) {
 
 func c19History(k *fw.K) {
 	r := k.Rng
-	class := r.Intn(4)
-	cname := []string{"small-ints", "reals", "with-NaN", "extreme-batches"}[class]
+	class := r.Intn(5)
+	cname := []string{"small-ints", "reals", "with-NaN", "extreme-batches", "equality-unspecified(Inf, differences below 1e-240)"}[class]
+	exact := class != 4 // class 4: only partition invariance, range and rejected-call neutrality are decided
 	nb := 1 + r.Intn(60)
 	if r.Intn(2) == 0 {
 		nb = 1 + r.Intn(8)
@@ -42,13 +43,19 @@ func c19History(k *fw.K) {
 	var batches []batch
 	for b := 0; b < nb; b++ {
 		n := 1 + r.Intn(50)
-		if r.Intn(2) == 0 {
+		switch r.Intn(8) {
+		case 0, 1, 2, 3:
 			n = 1 + r.Intn(5)
+		case 4:
+			n = 100 + r.Intn(900) // batches far beyond the sizes the suite uses
 		}
 		p, t := make([]float64, n), make([]float64, n)
 		mode := r.Intn(4) // 0 mixed, 1 all match, 2 none match, 3 mixed
 		for i := range p {
 			switch class {
+			case 4:
+				vals := []float64{math.Inf(1), math.Inf(-1), 0, 1e-300, 2e-300, -1e-300, 1, 1 + 1e-300}
+				t[i], p[i] = vals[r.Intn(len(vals))], vals[r.Intn(len(vals))]
 			case 0, 3:
 				t[i] = float64(r.Intn(3))
 				p[i] = float64(r.Intn(3))
@@ -84,6 +91,7 @@ func c19History(k *fw.K) {
 	k.Case = map[string]any{"label_class": cname, "batches": batches}
 	acc := metrics.NewAccuracy()
 	matched, total, invalid := 0, 0, 0
+	last, lastSet, rejectedJustNow := 0., false, false
 	zeroAfterMatch, sawMatch := false, false
 	result := func(tag string) bool {
 		var v float64
@@ -97,6 +105,18 @@ func c19History(k *fw.K) {
 			want = float64(matched) / float64(total)
 		}
 		k.Count("result_calls", 1)
+		if !exact {
+			if !(v >= 0 && v <= 1) {
+				k.Failf("%s: Result = %v outside [0,1]", tag, v)
+				return false
+			}
+			if lastSet && rejectedJustNow && math.Float64bits(v) != math.Float64bits(last) {
+				k.Failf("%s: a rejected call changed Result from %v to %v", tag, last, v)
+				return false
+			}
+			last, lastSet = v, true
+			return true
+		}
 		if math.Float64bits(v) != math.Float64bits(want) || v < 0 || v > 1 {
 			k.Failf("%s: Result = %v, expected matched/total = %d/%d = %v", tag, v, matched, total, want)
 			return false
@@ -136,9 +156,11 @@ func c19History(k *fw.K) {
 			}
 			invalid++
 			k.Count("rejected_calls", 1)
+			rejectedJustNow = true
 			if !result("after the rejected call (" + what + ")") {
 				return
 			}
+			rejectedJustNow = false
 		}
 		var err error
 		if pn := call(func() {
@@ -182,6 +204,9 @@ func c19History(k *fw.K) {
 		single := rep == 0
 		for pos < len(allP) {
 			n := 1 + r.Intn(1+len(allP)/2)
+			if rep%2 == 1 {
+				n = 1 + r.Intn(3) // many tiny batches, including batches of one
+			}
 			if single || pos+n > len(allP) {
 				n = len(allP) - pos
 			}
